@@ -139,7 +139,7 @@ INEXACT_KINDS = {'/', '**', 'exp', 'log', 'logzero', 'sin', 'cos', 'ncdf', 'logl
 
 def children(t):
     k = t[0]
-    if k in ('num', 'bool', 'beta', 'var', 'draw', 'rv'):
+    if k in ('num', 'bool', 'beta', 'var', 'draw', 'rv', 'badlogit'):
         return []
     if k in ('belongs',):
         return [t[1]]
@@ -436,6 +436,8 @@ def ev(t, ctx):
         for row in ctx.rows:
             prod = prod * ev(t[1], ctx.clone(row=row))
         return _finite(prod, 'traj', ctx)
+    if k == 'badlogit':
+        raise OutOfDomain('inconsistent logit specification')
     if k == 'integrate':
         return _integrate(t, ctx)
     if k == 'derive':
@@ -532,7 +534,7 @@ def _derive(t, ctx):
 def map_children(t, f):
     """Rebuilds a term applying f to every child term (structure-aware)."""
     k = t[0]
-    if k in ('num', 'bool', 'beta', 'var', 'draw', 'rv', 'linutil'):
+    if k in ('num', 'bool', 'beta', 'var', 'draw', 'rv', 'linutil', 'badlogit'):
         return t
     if k == 'belongs':
         return (k, f(t[1]), t[2])
@@ -581,7 +583,7 @@ def subst(t, mapping):
 
 ALL_KINDS = {'num', 'bool', 'beta', 'var', 'draw', 'rv', '+', '-', '*', '/', '**', 'neg', 'exp', 'log', 'logzero',
              'sin', 'cos', 'ncdf', 'min', 'max', 'and', 'or', '==', '!=', '<=', '>=', '<', '>', 'belongs', 'elem',
-             'condsum', 'multsum', 'multsumd', 'linutil', 'loglogit', 'logit', 'mc', 'traj', 'integrate', 'derive'}
+             'condsum', 'multsum', 'multsumd', 'linutil', 'loglogit', 'logit', 'mc', 'traj', 'integrate', 'derive', 'badlogit'}
 
 
 def evaluate(t, row=None, params=None, draws=None, rows=None, strict=True):
@@ -770,6 +772,19 @@ class Builder:
             av = None if full else {a: (1 if av is None else self.leaf_or_raw(av)) for a, u, av in alts}
             ch = self.leaf_or_raw(t[1])
             return (models.loglogit if k == 'loglogit' else models.logit)(util, av, ch)
+        if k == 'badlogit':
+            # t[1] in {'availability-keys', 'utility-keys', 'choice-values'}: a logit whose dictionaries / choice are inconsistent
+            util = {1: ex.Numeric(0.5), 2: ex.Variable('x1') * 0.25, 3: ex.Numeric(0.0)}
+            av = {1: 1, 2: 1, 3: 1}
+            ch = ex.Variable('choice')
+            if t[1] == 'availability-keys':
+                av[4] = 1
+            elif t[1] == 'utility-keys':
+                del av[2]
+            else:
+                del util[3]
+                del av[3]
+            return models.loglogit(util, av, ch)
         if k == 'integrate':
             return ex.Integrate(self.leaf_or_raw(t[1]), t[2])
         if k == 'derive':
